@@ -459,13 +459,13 @@ ServerWrite(env) ==
                  /\ env.b = 1 /\ env.t = 0 /\ env.s = 0
                  /\ HasNextSend(x)
                  /\ G("pay", env.pay = x.sent[NextSend(x)])
-                 /\ G("md", md = IF x.hdrW THEN EmptyF ELSE x.hdr)
+                 /\ G("wire", x.hdrW => md = EmptyF) /\ G("md", ~x.hdrW => md = x.hdr)
                  /\ hnds' = [hnds EXCEPT ![h].lastW = NextSend(x), ![h].hdrW = TRUE]
               \/ \* close
                  /\ env.t = 1 /\ env.b = 0
                  /\ x.ret /\ G("wire", ~HasNextSend(x))
                  /\ StatusMatches(env, h)
-                 /\ G("md", md = IF x.hdrW THEN EmptyF ELSE x.hdr)
+                 /\ G("wire", x.hdrW => md = EmptyF) /\ G("md", ~x.hdrW => md = x.hdr)
                  /\ G("md", MdF(env.tmd) = x.trl)
                  /\ hnds' = [hnds EXCEPT ![h].trW = TRUE, ![h].hdrW = TRUE]
         /\ UNCHANGED sin
@@ -587,7 +587,10 @@ SRecvRet(c, res, code, msg, ndet, pay, plain) ==
         /\ (code # OK \/ plain) = TRUE
         /\ ( \/ "status" \in Off
              \/ x.close = "err" /\ code = x.code /\ msg = x.msg /\ ndet = x.ndet   \* C03
-             \/ x.close = "rst" \/ x.mayRst
+             \* a reset explains an error - unless the handler of this very stream returned on a healthy
+             \* stream: then its trailer, not a reset, is what the caller must see (C03 / C06)
+             \/ /\ x.close = "rst" \/ x.mayRst
+                /\ G("status", ~(k.id \in DOMAIN hOf /\ hnds[hOf[k.id]].ret /\ ~HCause(hOf[k.id])))
              \/ code \in CtxCodes(c)                                               \* C07
              \/ "ctx" \in Off /\ CtxCodes(c) # {}
              \/ "cread" \in flt
